@@ -4,6 +4,47 @@ The rules locate their subjects by role (the parameter that is the registration 
 under that key / under the catch-all key, the value that reaches the `bid` / `info` field of the metadata, the draw that
 feeds `self.aes_rand`, ...) and decide them on the CFG / with the abstract interpreter; a rule that cannot locate its
 subject records an *undecided* obligation, a located subject that fails its necessary condition is a violation.
+
+Technique
+---------
+(numbers = the ALLOWED devices of RULES_GUIDE.md "What counts as *static* here"; no rule interprets /repo code on data
+chosen by the checker: the beacon id enters the abstract interpreter as the top integer, the user/computer/process names
+as strings of unknown length, loop-carried and branch-dependent values stay abstract / symbolic)
+
+R1  1 + 3: flow-insensitive may-alias / mutation analysis with `self.task_map` as the shared store (csverif.alias: who may
+    write a registered handler list, what get_handlers returns); register_task: the statement that stores the handler
+    parameter is located through def-use substitution (`inline`), its receiver resolved structurally to the map entry of
+    the key parameter; 2: "exactly once on every path" = CFG reachability (not in a cycle, no two stores on one path, no
+    ENTRY->EXIT path avoiding the store).
+R2  1 + 3: the lookups of `self.task_map` are classified by the role of their key (key parameter / constant -1 /
+    other) after def-use substitution, the names that may hold specific / catch-all handlers are a flow-insensitive
+    def-use closure; 2: the catch-all sources are controlled by an emptiness decision (CFG dominating branch edges,
+    position inside and/or/conditional expressions - shapes `x`, `len(x)`, `len(x) <op> 0|1`, `x == []` recognised
+    structurally, anything else that mentions the handlers is undecided), nothing specific is added on a path after the
+    decision (CFG reachability); beacon loop: single `for` over get_handlers(..), one handler(task) call per iteration
+    (CFG reachability avoiding the loop header), send_callback controlled by the truthiness of the response; 6: constant
+    folding of the catch-all key and of the `getattr` name (literals, module / class constants).
+R3  4: abstract interpretation of run() (csverif.absint.Interp extended by `_Interp`) in the interval x parity domain with
+    branch refinement, beacon_id = top; 6: constant operands folded.  Lemmas (all for Python ints, each one line):
+      L1  x - x % 2, x - (x & 1), x ^ (x & 1) are even and lie in [x - 1, x]   (they clear bit 0: x % 2 = x & 1 in {0, 1})
+      L2  (x >> 1) << 1 and 2 * x are even                                      (a left shift by >= 1 / a factor 2 clears bit 0)
+      L3  `x % 2` / `x & 1` truthy (== 1, != 0) <=> x odd; falsy <=> x even      (definition of parity)
+      L4  x >= 0 and not (x >> k)  =>  x <= 2**k - 1                            (x >> k = floor(x / 2**k) = 0)
+      L5  0 <= x < 2 * 2**k and not (x & 2**k)  =>  x <= 2**k - 1               (bit k is the only bit >= k that can be set)
+      L6  x in range(a, b)  <=>  a <= x <= b - 1 for an int x; `a <= x <= b` = `a <= x and x <= b`
+      L7  x & m in [0, m] for a constant m >= 0; x % m in [0, m - 1] for m >= 1   (transfer rules of csverif.absint)
+    callbacks: 3 (the leaves of the `id` term after def-use substitution); raise class: 1 + 2.
+R4  2: random.seed(..) dominates every draw that feeds aes_rand, no store of the id and no RNG use (1: call graph closure
+    `_uses_random`) on a CFG path between seed and draw, one draw outside any cycle; 3: the seed argument as a term over
+    the normalised id (def-use substitution, structural comparison with the last store of self.beacon_id, names not
+    rebound in between by CFG reachability); 4: length-interval domain for "exactly 16 bytes" (int.to_bytes(n) has
+    length n, random.randbytes(n) has length n); 6: constant folding of the bit count / class constants.
+R5  4: length-interval domain (str.encode() <= 4 bytes per character, x[:k] has length <= k, refinement by
+    `len(x) > k` tests); 6: the limit 128 - 11 - fixed part comes from the parsed cstruct definition of BeaconMetadata.
+R6  3: the returned expression as a polynomial normal form (SymPoly) over sleeptime, jitter and one uniform draw, built by
+    def-use substitution, compared structurally with the band ends; lemmas: random.uniform(a, b) lies between a and b,
+    random.random() in [0, 1], float(x) = x, and an affine function A + B*U of U in [lo, hi] ranges exactly between
+    A + B*lo and A + B*hi.  Not affine / more than one draw / other atoms: undecided.  Settings source: 3 (def-use chain).
 """
 
 from __future__ import annotations
@@ -78,10 +119,20 @@ def run(ctx):
         "of an accumulator that has received every specific source, and no specific source is added after that decision; "
         "single dispatch site in the beacon loop; parity/interval abstract interpretation of the beacon id that reaches "
         "the metadata; random.seed(f(normalised id)) dominates the draw that feeds aes_rand with no intervening RNG use; "
-        "length interval of the metadata info bytes against 128-11-59; symbolic range of the sleep time."
+        "length interval of the metadata info bytes against 128-11-59; the sleep time as a polynomial normal form, affine in "
+        "one uniform draw, whose values at the ends of the draw's range are compared with the jitter band.  No /repo code is "
+        "run or interpreted on concrete data: the beacon id is the top integer, the names are strings of unknown length."
     )
     rep.not_decided = ["behaviour of the loop against a live server", "that handlers themselves behave"]
-    rep.trusted_base = ["CPython ast", "networkx dominators", "interval/parity/length domains and SymPoly in csverif/absint.py", "random.uniform(a,b) in [a,b] for a<=b"]
+    rep.trusted_base = [
+        "CPython ast", "networkx dominators", "interval/parity/length domains and SymPoly in csverif/absint.py",
+        "may-alias / mutation analysis in csverif/alias.py",
+        "lemmas (Python ints): x - x % 2, x - (x & 1), x ^ (x & 1) are even and in [x-1, x]; (x >> 1) << 1 and 2*x are even; "
+        "x % 2 / x & 1 truthy <=> x odd; x >= 0 and not (x >> k) => x < 2**k; 0 <= x < 2**(k+1) and not (x & 2**k) => x < 2**k; "
+        "x in range(a, b) <=> a <= x < b; x & m in [0, m] for m >= 0; x % m in [0, m-1] for m >= 1",
+        "int.to_bytes(n, ..) and random.randbytes(n) have length n; str.encode() yields at most 4 bytes per character; len(x[:k]) <= k",
+        "random.uniform(a, b) lies between a and b, random.random() in [0, 1]; an affine function of a draw in [lo, hi] ranges between its values at lo and hi",
+    ]
     r1(ctx)
     r2(ctx)
     r3(ctx)
@@ -1079,9 +1130,25 @@ def r4(ctx):
                 if not (isinstance(k, int) and k <= 128):
                     b_ok = False
     ok = dep_ok and dom and after_norm and not between and b_ok and one_draw
+    # a width the length domain cannot determine (an unrecognised way of building the bytes) is not a located wrong width
+    width_unknown = not b_ok and (v.kind != "bytes" or v.length.hi is None) \
+        and dep_ok and dom and after_norm and not between and one_draw
+    # ... but a *minimal-width* integer encoding is a located wrong form: its length varies with the drawn value
+    # (leading zero bytes are dropped), so the 16-byte field the server hashes and the bytes hashed here can differ
+    rv_in = inline(fn, rval)
+    for c in [n for n in ast.walk(rv_in) if isinstance(n, ast.Call)]:
+        d = (dotted(c.func) or "").split(".")[-1]
+        if d == "long_to_bytes" and len(c.args) < 2 and not any(k.arg == "blocksize" for k in c.keywords):
+            width_unknown = False
+        if d in ("lstrip", "rstrip", "strip") and isinstance(c.func, ast.Attribute):
+            width_unknown = False  # stripping bytes off a fixed-width value makes its width depend on the drawn value
+        if d in ("pack", "pack_be") and len(c.args) < 2 and not any(k.arg == "size" for k in c.keywords):
+            cal = ctx.rs.resolve_call(f, c)
+            if cal.kind == "func" and cal.func is not None and cal.func.fq == "utils.pack" and "size" not in cal.bound:
+                width_unknown = False
     ctx.ob("R4", "DOM", f, text, ok,
            f"seed depends only on the normalised id={dep_ok} ({sorted(names)}); follows the normalisation={after_norm}; dominates the aes_rand draw={dom}; "
-           f"RNG uses in between={between}; single draw={one_draw}; aes_rand = exactly 16 bytes={b_ok} (length {v.length if v.kind == 'bytes' else 'unknown'})", rst)
+           f"RNG uses in between={between}; single draw={one_draw}; aes_rand = exactly 16 bytes={b_ok} (length {v.length if v.kind == 'bytes' else 'unknown'})", rst, undecided=width_unknown)
 
 
 # ------------------------------------------------------------------------------------------------ R5
